@@ -325,12 +325,12 @@ std::string stress_input(const std::string &fam, long n) {
 		s += "\nN(1, 2)\n";
 	} else if (fam == "callargs") {
 		// a call with n arguments nested in the argument list of another call: n + 3 argument values are open at once
-		s = "int f();\nint g(int a, int b) {\n\treturn f(a, f(";
-		for (long i = 0; i < n; i++) s += (i ? ", " : "") + std::string(i % 3 == 0 ? "a" : i % 3 == 1 ? "b + " + std::to_string(i) : std::to_string(i));
+		s = "int f(int, ...);\nint g(int a, int b) {\n\treturn f(a, f(0";
+		for (long i = 0; i < n; i++) s += ", " + std::string(i % 3 == 0 ? "a" : i % 3 == 1 ? "b + " + std::to_string(i) : std::to_string(i));
 		s += "), b, f(a, b));\n}\n";
 	} else if (fam == "callnest") {
 		// calls nested n deep, each with an argument before and after the inner call
-		s = "int f();\nint g(int a) {\n\treturn ";
+		s = "int f(int, ...);\nint g(int a) {\n\treturn ";
 		for (long i = 0; i < n; i++) s += "f(a, ";
 		s += "a";
 		for (long i = 0; i < n; i++) s += ", " + std::to_string(i) + ")";
@@ -677,6 +677,7 @@ static Plan gen_c20(uint64_t seed, uint64_t index) {
 	} else set_stress(p, r, r.coin(1, 4));
 	if (r.coin(1, 12)) p.target = 0;  // no -t: the default target is part of "the options", the reference uses none either
 	perturb_schedule(p, r, true);
+	if (r.coin(1, 8)) { p.free_policy = 3; p.fill = 0; p.realloc_policy = 1; p.gapmax = 0; p.placement = 0; }  // production allocator profile
 	return p;
 }
 
@@ -688,8 +689,12 @@ static Plan gen_c03(uint64_t seed, uint64_t index) {
 	else set_corpus(p, (size_t)(index % g_corpus.size()), r, true);
 	if (r.coin(1, 2)) perturb_schedule(p, r, true);
 	else { p.outbuf = (int)r.below(7); p.dash_o = r.coin(1, 2); }
+	// a quarter of the runs under the profile of a production allocator: freed blocks are handed out again with their
+	// old contents, fresh memory is zero - stale but plausible values instead of patterns that crash at once
+	bool production = r.coin(1, 4);
+	if (production) { p.free_policy = 3; p.fill = 0; p.realloc_policy = 1; p.gapmax = 0; p.placement = 0; }
 	Probe pr = probe_counts(p);
-	p.faults.push_back(gen_write_fault(r, pr.nwrite));
+	if (!(production && r.coin(1, 2))) p.faults.push_back(gen_write_fault(r, pr.nwrite));
 	if (r.coin(1, 6)) p.faults.push_back(gen_write_fault(r, pr.nwrite));
 	if (r.coin(1, 8)) { FaultB a; a.seam = "alloc"; a.index = (long)r.below(pr.nalloc + 1); p.faults.push_back(a); }
 	return p;
